@@ -102,6 +102,8 @@ def build_args(ctx, values):
             out.append({'__list__': [{'__list__': list(values[n])} for n in d[1]]})
         elif d[0] == 'list':
             out.append({'__list__': list(values[d[1]])})
+        elif d[0] == 'reallist':
+            out.append({'__list__': [values[n] for n in d[1]]})
         elif d[0] == 'const':
             out.append(d[1])
     return out
